@@ -224,6 +224,8 @@ def run(ctx):
   ctx.check(ok, 'C19.guards', construct(pi), 'every processed import is recorded in the context\'s import list', 'processed imports are no longer recorded per context', pi.loc(), instance='recorded')
 
   # ---- C19.exact-object
+  from .common import inverse_lookup_by_equality
+  inverse_lookup_by_equality(ctx, 'C19.exact-object')
   rg = c.methods['_register']
   mk = [cc for cc in walk_local(rg.node) if isinstance(cc, ast.Call) and prog.resolve_call(rg, cc) == 'config._make_configurable']
   unp = [n for n in walk_local(rg.node) if isinstance(n, ast.Assign) and isinstance(n.targets[0], ast.Tuple) and u(n.value) == rg.params[2]]
